@@ -72,6 +72,9 @@ def run(ctx):
     from .c06 import _Remap
     from .c16 import media_type
     ctx.guarded("R15.10", "media-type", lambda: media_type(_Remap(ctx, "R15.10")))
+    ctx.rule("R15.11", "\"ignored without rejecting the request\" also on the connection: the incremental parser, the other caller of parse_header_line, continues after exactly {Ok, UnsupportedValue} (= C02 R02.3)")
+    from .c02 import incremental_tolerated
+    ctx.guarded("R15.11", "incremental", lambda: incremental_tolerated(_Remap(ctx, "R15.11"), "R02.3"))
 
 
 def names(ctx):
